@@ -141,6 +141,36 @@ def replay(col, item):
                               {"abstract": {"db": db, "y": case["y"], "D": Dm.tolist(), "chi2_of_every_entry": case["chi2"][d]},
                                "concrete": {"permutation": idx}, "expected": [fl(exp["mean"]), fl(exp["var"])],
                                "observed": [float(mean[0]), float(std[0] ** 2)]})
+    # several observations in ONE call (rows of y_obs): the observation, one far outside the database, the observation
+    # again - on one BMCI object, with an integer-typed database; every row is answered like a call of its own
+    far = np.full(m, 7.0)
+    multi = np.vstack([yobs[0], far, yobs[0]])
+    for x2 in (-1.0, 0.0, 50.0):
+        exp = case["spike"]
+        far_empty = True                       # (7, .., 7) matches no entry of a database over 0..2
+        try:
+            b = BMCI(y.astype(int), x.astype(int), DS[m][n % len(DS[m])] * 1e-6)
+            with np.errstate(all="ignore"):
+                mean, std = b.predict(multi.copy(), x2_max=x2)
+                q = b.predict_quantiles(multi.copy(), [0.25, 0.75], x2_max=x2)
+        except Exception as ex:
+            col.violation("predict-raises-%s-several-observations" % type(ex).__name__,
+                          {"abstract": {"db": db, "y_obs_rows": multi.tolist(), "x2_max": x2}, "observed": repr(ex)[:200]})
+            continue
+        col.count(1)
+        mean, std, q = np.asarray(mean, dtype=float).ravel(), np.asarray(std, dtype=float).ravel(), np.asarray(q, dtype=float)
+        ok = mean.shape == (3,) and std.shape == (3,) and q.shape == (3, 2) and np.isnan(mean[1]) and np.isnan(std[1]) and np.all(np.isnan(q[1]))
+        if ok:
+            for r in (0, 2):
+                if exp["empty"]:
+                    ok = ok and np.isnan(mean[r]) and np.isnan(std[r])
+                else:
+                    ok = ok and close(mean[r], fl(exp["mean"]), 1e-9) and close(std[r] ** 2, fl(exp["var"]), 1e-8) \
+                        and q[r][0] <= q[r][1] + 1e-12 and exp["lo"] - 1e-12 <= q[r][0] and q[r][1] <= exp["hi"] + 1e-12
+        if not ok:
+            col.violation("predict-wrong-for-several-observations", {"abstract": {"db": db, "y_obs_rows": multi.tolist(), "x2_max": x2},
+                                                                     "expected": "row 1 NaN; rows 0 and 2: " + ("NaN" if exp["empty"] else repr([fl(exp["mean"]), fl(exp["var"])])),
+                                                                     "observed": [mean.tolist(), (std ** 2).tolist(), q.tolist()]})
     # a large common offset in every CHANNEL (2^22, exact in binary): the observation is still the same distance from
     # every entry, so the spike-regime estimates are the same - for x2_max = 0 (exact matches on the window boundary) too
     offy = 2.0 ** 22
